@@ -15,6 +15,9 @@ EXPLANATION = (
     "existing one is a violation until reviewed. S3 no `static mut`; every static with interior mutability is a Mutex and every use "
     "of it goes through lock()."
 )
+EXPLANATION += (  # round-3 supplement
+    " S5 Value::Transformed and Val<T> carry Send + Sync (read from the trait's associated-type bounds and the impl's predicates)."
+)
 ASSUMPTIONS = [
     "rustc's trait solver answers (Send/Sync per field) are the oracle",
     "machine code produced by cranelift is immutable after finalize_definitions",
